@@ -467,6 +467,11 @@ func (a *Analyzer) Entropy(rule string, funcs []*ssa.Function, attrSink bool) {
 // total comparator.
 func (a *Analyzer) isSortedCopy(info *types.Info, body *ast.BlockStmt, rs *ast.RangeStmt) (bool, string) {
 	if call, isCall := ast.Unparen(rs.X).(*ast.CallExpr); isCall {
+		if fresh, copied, sorted, why := a.freshListExpr(info, call); fresh && copied && sorted {
+			return true, ""
+		} else if why != "" {
+			return false, why
+		}
 		if ok, why := a.sortedCopyHelper(info, call); ok {
 			return true, ""
 		} else if why != "" {
@@ -484,6 +489,64 @@ func (a *Analyzer) isSortedCopy(info *types.Info, body *ast.BlockStmt, rs *ast.R
 	}
 	fr := path[len(path)-1]
 	return a.sortedCopyState(info, fr.list[:fr.idx], obj, id.Name)
+}
+
+// freshListExpr reads a call expression as the creation of a list: fresh (its backing array is new), copied (it
+// holds the elements of the source) and sorted (by a total comparator) — for the idioms make, slices.Clone,
+// append onto an empty fresh slice, slices.Collect, slices.Sorted / SortedFunc / SortedStableFunc.
+func (a *Analyzer) freshListExpr(info *types.Info, call *ast.CallExpr) (fresh, copied, sorted bool, why string) {
+	if fid, ok := call.Fun.(*ast.Ident); ok {
+		switch fid.Name {
+		case "make":
+			return true, false, false, ""
+		case "append":
+			if len(call.Args) == 2 && call.Ellipsis.IsValid() && emptyFreshSlice(info, call.Args[0]) {
+				return true, true, false, ""
+			}
+		}
+		return false, false, false, ""
+	}
+	cf, _ := typeutil.Callee(info, call).(*types.Func)
+	if cf == nil || cf.Pkg() == nil || cf.Pkg().Path() != "slices" {
+		return false, false, false, ""
+	}
+	switch cf.Name() {
+	case "Clone", "Collect":
+		return true, true, false, ""
+	case "Sorted":
+		return true, true, true, ""
+	case "SortedFunc", "SortedStableFunc":
+		if len(call.Args) == 2 {
+			if ok, w := a.comparatorTotal(info, call.Args[1]); ok {
+				return true, true, true, ""
+			} else {
+				return true, true, false, "comparator is not provably total on the collected elements: " + w
+			}
+		}
+	}
+	return false, false, false, ""
+}
+
+// emptyFreshSlice: []T(nil), []T{}, make([]T, 0[, n]).
+func emptyFreshSlice(info *types.Info, e ast.Expr) bool {
+	switch x := ast.Unparen(e).(type) {
+	case *ast.CompositeLit:
+		return len(x.Elts) == 0
+	case *ast.CallExpr:
+		if fid, ok := x.Fun.(*ast.Ident); ok && fid.Name == "make" && len(x.Args) >= 2 {
+			tv, ok := info.Types[x.Args[1]]
+			return ok && tv.Value != nil && tv.Value.String() == "0"
+		}
+		// conversion of nil: []T(nil)
+		if tv, ok := info.Types[x.Fun]; ok && tv.IsType() && len(x.Args) == 1 {
+			if id, ok := ast.Unparen(x.Args[0]).(*ast.Ident); ok && id.Name == "nil" {
+				return true
+			}
+		}
+	case *ast.Ident:
+		return x.Name == "nil"
+	}
+	return false
 }
 
 // sortedCopyHelper: the call is a repository helper that returns a fresh, sorted copy: its body ends in
@@ -550,11 +613,10 @@ func (a *Analyzer) sortedCopyState(info *types.Info, stmts []ast.Stmt, obj types
 				}
 				fresh, sorted, copied = false, false, false
 				if call, ok := s.Rhs[i].(*ast.CallExpr); ok {
-					if fid, ok := call.Fun.(*ast.Ident); ok && fid.Name == "make" {
-						fresh = true
-					}
-					if cf, _ := typeutil.Callee(info, call).(*types.Func); cf != nil && cf.Pkg() != nil && cf.Pkg().Path() == "slices" && cf.Name() == "Clone" {
-						fresh, copied = true, true
+					var w string
+					fresh, copied, sorted, w = a.freshListExpr(info, call)
+					if w != "" {
+						why = w
 					}
 					if ok, _ := a.sortedCopyHelper(info, call); ok {
 						fresh, copied, sorted = true, true, true
